@@ -24,6 +24,7 @@ type c10Case struct {
 	World   hx.World  `json:"world"`
 	Mixed   c02Case   `json:"mixed"`
 	Direct  c03Case   `json:"direct"`
+	Nested  c08Case   `json:"nested"`
 	Calls   []c10Call `json:"calls"`
 	Repeats int       `json:"repeats"`
 }
@@ -65,6 +66,29 @@ func c10Run(c c10Case, r *hx.Rec) error {
 		return c10Direct(c, r)
 	}
 	w := c.World
+	if c.Kind == "nested" {
+		if len(c.Nested.Root.Steps) == 0 {
+			return nil
+		}
+		b := &c08Builder{c: c.Nested, tree: map[string]string{"seed.txt": "seed\n"}}
+		rootLay := b.buildLevel(c.Nested.Root, "", true)
+		w = hx.World{Entry: c.Nested.Entry, Links: b.links,
+			Layout:       hx.WMetaFile{Name: "root.layout", Wrapper: c.Nested.Wrapper, Meta: hx.MMeta{Layout: &rootLay}, Sigs: []hx.WSig{{Key: "ed25519-2"}}},
+			VerifierKeys: []hx.WKey{{Key: "ed25519-2"}}}
+		for _, p := range sortedFileKeys(b.tree) {
+			w.Product = append(w.Product, hx.WFile{Path: p, Content: b.tree[p]})
+		}
+		if len(w.Product) == 0 {
+			w.Product = []hx.WFile{{Path: "unrelated.txt", Content: "x"}}
+		}
+		seen := map[string]bool{}
+		for _, f := range w.Links {
+			if seen[f.Name] {
+				return nil
+			}
+			seen[f.Name] = true
+		}
+	}
 	if c.Kind == "mixed" {
 		var err error
 		if w, _, err = c02World(c.Mixed); err != nil {
@@ -118,7 +142,9 @@ func c10Run(c c10Case, r *hx.Rec) error {
 			if s1, s2 := c10Summary(out), c10Summary(fresh); s1 != s2 {
 				return fmt.Errorf("call %d repeat %d: summary link differs between re-used objects and a fresh copy:\n %s\n %s", i, rep, s1, s2)
 			}
-			if len(out.Log) != len(fresh.Log) {
+			// which inspection commands ran before a REJECTION depends on the order in which the
+			// verifier happens to visit sublayouts; the statement fixes verdict and summary only
+			if !out.Rejected() && len(out.Log) != len(fresh.Log) {
 				return fmt.Errorf("call %d repeat %d: inspections executed %v on re-used objects, %v on a fresh copy", i, rep, out.Log, fresh.Log)
 			}
 			if after := c10Snapshot(md, keys, params, pems); after != before {
@@ -127,7 +153,7 @@ func c10Run(c c10Case, r *hx.Rec) error {
 		}
 		r.Label("verdict=%v", !fresh.Rejected())
 	}
-	if (len(c.Calls) >= 2 && (nonEmptyParams || c.Kind == "mixed")) || c.Kind == "surplus" {
+	if (len(c.Calls) >= 2 && (nonEmptyParams || c.Kind == "mixed")) || c.Kind == "surplus" || c.Kind == "nested" {
 		r.Nontrivial()
 	}
 	return nil
@@ -212,7 +238,7 @@ func c10GenChain(t *rapid.T) hx.World {
 
 func c10Gen(t *rapid.T) c10Case {
 	c := c10Case{Repeats: hx.Pick(4, 16)}
-	c.Kind = rapid.SampledFrom([]string{"chain", "chain", "mixed", "direct", "surplus"}).Draw(t, "kind")
+	c.Kind = rapid.SampledFrom([]string{"chain", "chain", "mixed", "direct", "surplus", "nested"}).Draw(t, "kind")
 	switch c.Kind {
 	case "chain":
 		c.World = c10GenChain(t)
@@ -229,6 +255,14 @@ func c10Gen(t *rapid.T) c10Case {
 		n := rapid.IntRange(1, 4).Draw(t, "ncalls")
 		for i := 0; i < n; i++ {
 			c.Calls = append(c.Calls, c10Call{Params: dicts[rapid.IntRange(0, len(dicts)-1).Draw(t, "dict")]})
+		}
+	case "nested":
+		// sublayouts offered by several functionaries: the recursion iterates over maps, too
+		c.Nested = c08Gen(t)
+		c.Repeats = hx.Pick(6, 16)
+		n := rapid.IntRange(1, 2).Draw(t, "ncalls")
+		for i := 0; i < n; i++ {
+			c.Calls = append(c.Calls, c10Call{Params: map[string]string{}})
 		}
 	case "surplus":
 		// more valid links than the threshold, one of them disagreeing: the verdict must not depend
